@@ -14,3 +14,12 @@ U("c01_table_alignments", ["C01"], "h_table_align", ["C01/table.c"], ["writer.c"
   functions=["read_table_column_alignments"], callees={"scan_alignment_string": "assumed contract (re2c scanner): returns any value"},
   native={"repo": "ALL", "ldflags": ["-lm"]},
   timeout=600, cost=40, assumptions=["scan_alignment_string (re2c generated) reads only its NUL-terminated argument and returns any value"])
+
+U("c01_attr_new", ["C01"], "h_attr_new", ["C01/attr.c"], ["writer.c"], plain=True, lib=("lib/libc_models.c",), kind="bounded",
+  bounds={"value length<=": 5, "unwind": 8}, cbmc_flags=["--unwind", "8", "--unwinding-assertions"],
+  functions=["attr_new", "my_strdup (file-local)"], callees={"strlen/strcpy": "byte-loop models"}, native={"repo": "ALL", "exclude": ["writer.c"], "ldflags": ["-lm"]},
+  assumptions=[NOFAIL])
+U("c01_my_strndup", ["C01"], "h_strndup", ["C01/attr.c"], ["writer.c"], plain=True, lib=("lib/libc_models.c",), kind="bounded",
+  bounds={"source length<=": 5, "unwind": 8}, cbmc_flags=["--unwind", "8", "--unwinding-assertions"],
+  functions=["my_strndup (file-local)"], callees={"memcpy": "byte-loop model"}, native={"repo": "ALL", "exclude": ["writer.c"], "ldflags": ["-lm"]},
+  assumptions=[NOFAIL])
